@@ -1944,7 +1944,22 @@ func ruleClipOrdered(c *Ctx, rule string) {
 					c.Funcs[funcName(fn)] = true
 					key := numberedKey(keys, "sequtils."+name+"/clipped-span-sliced-only-when-not-empty")
 					// a clipped length: max(0, min(..) - max(..)), or that difference itself
-					clippedLen := func(v ssa.Value) bool {
+					var clippedLen func(v ssa.Value) bool
+					clippedLen = func(v ssa.Value) bool {
+						// the difference clamped by a test: l := min(..) - max(..); if l < 0 { l = 0 }
+						if ph, ok := v.(*ssa.Phi); ok {
+							diff := false
+							for _, e := range ph.Edges {
+								if k, ok := constIntVal(e); ok && k == 0 {
+									continue
+								}
+								if _, isPhi := e.(*ssa.Phi); isPhi || !clippedLen(e) {
+									return false
+								}
+								diff = true
+							}
+							return diff
+						}
 						if mc := isCall(v, "max"); mc != nil {
 							for _, a := range mc.Call.Args {
 								if bo, ok := a.(*ssa.BinOp); ok && bo.Op == token.SUB && isCall(bo.X, "min") != nil && isCall(bo.Y, "max") != nil {
@@ -2195,5 +2210,153 @@ func ruleArgRoles(c *Ctx, rule string) {
 	}
 	if n == 0 {
 		c.und(rule, "align/Align-bodies", token.NoPos, "no call of an aligner body found in the Align methods")
+	}
+}
+
+// ---- emptyalign (C05): an alignment with no columns is reverse-complemented without a subscript ----
+
+// ruleEmptyAlign: RevComp and Reverse of the column-major alignments walk the
+// column list from both ends; with no columns the walk does nothing and the
+// strand is negated. A call of Rows() (which reads column 0) or a subscript
+// of the column list by a constant that every call executes — outside the
+// loop and outside the middle-column branch — panics on the empty alignment,
+// so applying the operation twice cannot restore it.
+func ruleEmptyAlign(c *Ctx, rule string) {
+	pkg := modPath + "/seq/alignment"
+	n := 0
+	for _, name := range []string{"(*Seq).RevComp", "(*Seq).Reverse", "(*QSeq).RevComp", "(*QSeq).Reverse"} {
+		fn := c.fn("seq/alignment", name)
+		c.Funcs[funcName(fn)] = true
+		n++
+		key := funcName(fn) + "/no-unconditional-read-of-a-fixed-column"
+		var bad ssa.Instruction
+		what := ""
+		for _, b := range fn.Blocks {
+			if len(branchesAtAny(b)) > 0 {
+				continue
+			}
+			inLoop := false
+			for _, l := range naturalLoops(fn) {
+				if l.body[b] {
+					inLoop = true
+				}
+			}
+			if inLoop {
+				continue
+			}
+			for _, ins := range b.Instrs {
+				switch x := ins.(type) {
+				case *ssa.Call:
+					if calleeName(&x.Call) == "Rows" && bad == nil {
+						bad, what = x, "Rows() reads column 0"
+					}
+				case *ssa.IndexAddr:
+					if _, isK := constIntVal(x.Index); isK {
+						if name, ok := fieldOfAny(x.X); ok && name == "Seq" && bad == nil {
+							bad, what = x, "a fixed column of the alignment is subscripted"
+						}
+						if u, ok := x.X.(*ssa.UnOp); ok && u.Op == token.MUL {
+							if name, ok := fieldOf(u.X, pkg, "Seq"); ok && name == "Seq" && bad == nil {
+								bad, what = x, "a fixed column of the alignment is subscripted"
+							} else if name, ok := fieldOf(u.X, pkg, "QSeq"); ok && name == "Seq" && bad == nil {
+								bad, what = x, "a fixed column of the alignment is subscripted"
+							}
+						}
+					}
+				}
+			}
+		}
+		if bad != nil {
+			c.bad(rule, key, bad.Pos(), what+" on every call, before anything has established that the alignment has a column: for an alignment with no columns the method panics with an index out of range instead of just negating the strand")
+		} else {
+			c.ok(rule, key, fn.Pos(), "no column is read unless the walk over the columns found one")
+		}
+	}
+	if n == 0 {
+		c.und(rule, "alignment/RevComp", token.NoPos, "no alignment RevComp or Reverse found")
+	}
+}
+
+// ---- nilalphaarg (C09): the query's alphabet is compared before it is used ----
+
+// ruleNilAlphaArg: Align returns ErrNoAlphabet or ErrMismatchedAlphabets for
+// sequences without (or with different) alphabets. The reference's alphabet is
+// tested for nil; the query's is only ever compared with it. A method called on
+// the query's alphabet — in Align or in a private helper it is handed to — is
+// reached only where that value is known not to be nil; otherwise a query
+// without an alphabet makes the aligner panic instead of returning its error.
+func ruleNilAlphaArg(c *Ctx, rule string) {
+	n := 0
+	for _, a := range []string{"NW", "NWAffine", "SW", "SWAffine", "Fitted", "FittedAffine"} {
+		fn := c.fn("align", a+".Align")
+		if len(fn.Params) < 3 {
+			continue
+		}
+		c.Funcs[funcName(fn)] = true
+		key := "align." + a + ".Align/query-alphabet-not-dereferenced-unchecked"
+		n++
+		var start []ssa.Value
+		for _, b := range fn.Blocks {
+			for _, ins := range b.Instrs {
+				if call, ok := ins.(*ssa.Call); ok && call.Call.IsInvoke() && call.Call.Method.Name() == "Alphabet" && call.Call.Value == ssa.Value(fn.Params[2]) {
+					start = append(start, call)
+				}
+			}
+		}
+		var bad ssa.Instruction
+		var visit func(v ssa.Value, depth int)
+		visit = func(v ssa.Value, depth int) {
+			if depth > 2 || v.Referrers() == nil {
+				return
+			}
+			nonNil := func(b *ssa.BasicBlock) bool {
+				for _, bf := range branchesAt(b) {
+					if bf.cond.X == v && isNilConst(bf.cond.Y) && effectiveOp(bf, true) == token.NEQ {
+						return true
+					}
+					if bf.cond.Y == v && isNilConst(bf.cond.X) && effectiveOp(bf, false) == token.NEQ {
+						return true
+					}
+					// equal to the reference's alphabet, which was found not nil
+					if (bf.cond.X == v || bf.cond.Y == v) && !isNilConst(bf.cond.X) && !isNilConst(bf.cond.Y) && effectiveOp(bf, true) == token.EQL {
+						return true
+					}
+				}
+				return false
+			}
+			for _, r := range *v.Referrers() {
+				call, ok := r.(*ssa.Call)
+				if !ok {
+					continue
+				}
+				if call.Call.IsInvoke() && call.Call.Value == v {
+					if !nonNil(call.Block()) && bad == nil {
+						bad = call
+					}
+					continue
+				}
+				if g := call.Call.StaticCallee(); g != nil && inModule(g) && g.Blocks != nil {
+					for i, arg := range call.Call.Args {
+						if arg == v && i < len(g.Params) && !nonNil(call.Block()) {
+							visit(g.Params[i], depth+1)
+						}
+					}
+				}
+			}
+		}
+		for _, v := range start {
+			visit(v, 0)
+		}
+		switch {
+		case len(start) == 0:
+			c.ok(rule, key, fn.Pos(), "the query's alphabet is not read here")
+		case bad != nil:
+			c.bad(rule, key, bad.Pos(), "a method is called on the query's alphabet at "+c.pos(bad.Pos())+" where nothing has established that it is not nil: a query sequence without an alphabet makes the aligner panic with a nil dereference instead of returning ErrMismatchedAlphabets")
+		default:
+			c.ok(rule, key, fn.Pos(), "the query's alphabet is only compared, or used where it is known not to be nil")
+		}
+	}
+	if n == 0 {
+		c.und(rule, "align/Align", token.NoPos, "no Align method found")
 	}
 }
